@@ -32,6 +32,7 @@ type Obligation struct {
 	Ms      int64
 	Output  string
 	Bounded bool
+	Alts    []*Term // alternative (stronger) goals: the obligation holds if any of them is proved
 }
 
 type namedTerm struct {
@@ -58,6 +59,7 @@ type frame struct {
 type retInfo struct {
 	st   *State
 	vals []Val
+	pos  token.Pos
 }
 
 type FnExec struct {
@@ -87,6 +89,8 @@ type FnExec struct {
 	unannotatedLoops int
 	mapWrites  []mapWrite
 	epoch      int
+	pureMode   bool
+	subSeen    map[*Term]bool
 }
 
 type ExecOpts struct {
@@ -100,6 +104,14 @@ type ExecOpts struct {
 func (fx *FnExec) assumeGlobal(t *Term) {
 	if t.IsTrue() {
 		return
+	}
+	if t.open {
+		// a fact about a term that mentions quantifier variables (e.g. the representation
+		// invariant of vhosts[k].Pattern): close it universally
+		fb := freeBoundVars(t)
+		if len(fb) > 0 {
+			t = fx.c.Forall(fb, t)
+		}
 	}
 	fx.assumes = append(fx.assumes, t)
 }
@@ -136,6 +148,8 @@ func (fx *FnExec) oblige(fr *frame, st *State, kind string, pos token.Pos, goal 
 
 func isSafetyKind(k string) bool {
 	switch k {
+	case "frame":
+		return false
 	case "index", "slice", "nil", "make", "div", "shift", "panic", "assert", "convert", "alloc", "closed":
 		return true
 	}
@@ -505,6 +519,11 @@ func (fx *FnExec) execInstr(fr *frame, st *State, instr ssa.Instruction) {
 		v := fx.val(fr, x.Val)
 		if p.Kind != PLocal {
 			fx.escape(fr, st, v)
+			if p.Kind == PGlobal {
+				fx.frameWrite(fr, st, nil, x.Pos(), "write a global variable")
+			} else {
+				fx.frameWrite(fr, st, p.Ref, x.Pos(), "write to memory that existed before the call")
+			}
 		}
 		fx.store(st, p, fx.coerce(v, p.Elem))
 	case *ssa.UnOp:
@@ -656,6 +675,30 @@ func (fx *FnExec) execInstr(fr *frame, st *State, instr ssa.Instruction) {
 }
 
 func (fx *FnExec) initZeroObj(st *State, t types.Type, r *Term) {
+	switch u := under(t).(type) {
+	case *types.Array:
+		if isObjT(u.Elem()) {
+			n := u.Len()
+			if n <= 64 {
+				for k := int64(0); k < n; k++ {
+					fx.initZeroObj(st, u.Elem(), fx.elemRef(u.Elem(), r, fx.bv64(k)))
+				}
+			}
+			return
+		}
+		fx.zeroBacking(st, u.Elem(), r)
+		return
+	case *types.Struct:
+		for i := 0; i < u.NumFields(); i++ {
+			ft := u.Field(i).Type()
+			if isObjT(ft) {
+				fx.initZeroObj(st, ft, fx.subRef(t, i, r))
+			} else {
+				fx.storeField(st, t, i, r, fx.zeroVal(ft))
+			}
+		}
+		return
+	}
 	fx.storeObj(st, t, r, fx.zeroObjVal(t))
 }
 
